@@ -2,6 +2,8 @@ package rules
 
 import (
 	"fmt"
+	"go/token"
+	"go/types"
 	"sort"
 	"strings"
 
@@ -110,6 +112,97 @@ func R7(p *core.Prog) *core.Result {
 			}
 		}
 	}
+	// FIELD-ESTABLISHED: a parser field that exactly one step function writes (a value taken from a header, e.g. the
+	// element type of a '$' type header) is only read by handlers whose own steps include that writer. A handler
+	// that never parses the header reads whatever the last container that did left behind.
+	for _, pk := range []string{"ubjson", "cborl", "json"} {
+		fm, err := buildFamily(p, pk)
+		if err != nil {
+			continue
+		}
+		st, _ := fm.recvNamed.Underlying().(*types.Struct)
+		if st == nil {
+			continue
+		}
+		writers := map[string]map[*ssa.Function]bool{}
+		readers := map[string]map[*ssa.Function]bool{}
+		var fns []*ssa.Function
+		for _, f := range p.ModFuncs() {
+			if f.Signature.Recv() == nil || namedOf(f.Signature.Recv().Type()) != fm.recvNamed || f.Blocks == nil || f.Name() == "init" {
+				continue
+			}
+			fns = append(fns, f)
+			for _, b := range f.Blocks {
+				for _, in := range b.Instrs {
+					switch x := in.(type) {
+					case *ssa.Store:
+						if fa, ok := x.Addr.(*ssa.FieldAddr); ok && fa.X == ssa.Value(f.Params[0]) {
+							n := st.Field(fa.Field).Name()
+							if writers[n] == nil {
+								writers[n] = map[*ssa.Function]bool{}
+							}
+							writers[n][f] = true
+						}
+					case *ssa.UnOp:
+						if fa, ok := x.X.(*ssa.FieldAddr); ok && x.Op == token.MUL && fa.X == ssa.Value(f.Params[0]) {
+							n := st.Field(fa.Field).Name()
+							if readers[n] == nil {
+								readers[n] = map[*ssa.Function]bool{}
+							}
+							readers[n][f] = true
+						}
+					}
+				}
+			}
+		}
+		reach := func(from, to *ssa.Function) bool {
+			seen := map[*ssa.Function]bool{}
+			var visit func(f *ssa.Function) bool
+			visit = func(f *ssa.Function) bool {
+				if f == to {
+					return true
+				}
+				if seen[f] || f.Blocks == nil {
+					return false
+				}
+				seen[f] = true
+				for _, b := range f.Blocks {
+					for _, in := range b.Instrs {
+						if c, ok := in.(ssa.CallInstruction); ok {
+							if sc := c.Common().StaticCallee(); sc != nil && core.FuncPkg(sc) == core.FuncPkg(from) && visit(sc) {
+								return true
+							}
+						}
+					}
+				}
+				return false
+			}
+			return visit(from)
+		}
+		for _, fld := range sortedKeys(writers) {
+			if len(writers[fld]) != 1 {
+				continue
+			}
+			if _, isBasic := fieldByName(st, fld).Type().Underlying().(*types.Basic); !isBasic {
+				continue // stacks, buffers, visitors: covered by the stack and buffer rules
+			}
+			var w *ssa.Function
+			for f := range writers[fld] {
+				w = f
+			}
+			for _, rf := range fns {
+				if !readers[fld][rf] || rf == w {
+					continue
+				}
+				key := pk + "." + fld + "|" + rf.Name()
+				if reach(rf, w) {
+					r.Ok(".FIELD-ESTABLISHED", p.Pos(rf.Pos()), fmt.Sprintf("%s reads %s and its own steps include the only writer %s", core.FuncKey(rf), fld, w.Name()))
+				} else {
+					r.Fail(".FIELD-ESTABLISHED", key, p.Pos(rf.Pos()), fmt.Sprintf("%s reads the parser field %s, which only %s writes, but none of its own steps reaches %s: it sees whatever an earlier container (possibly of an earlier document) left there", core.FuncKey(rf), fld, core.FuncKey(w), w.Name()), "")
+				}
+			}
+		}
+	}
 	// typed handlers must pop the element type
 	for _, n := range []string{"stepArrayTyped", "stepObjectTyped"} {
 		m, f := completion(n)
@@ -193,4 +286,13 @@ func R7(p *core.Prog) *core.Result {
 		}
 	}
 	return r
+}
+
+func fieldByName(st *types.Struct, name string) *types.Var {
+	for i := 0; i < st.NumFields(); i++ {
+		if st.Field(i).Name() == name {
+			return st.Field(i)
+		}
+	}
+	return nil
 }
